@@ -575,6 +575,20 @@ def run(ctx: Ctx):
         ctx.exhaustive(f"all {cnt} deterministic tables over states q0,q1 (+final qf), tape alphabet "
                        f"{{{','.join(tsy)}}}, ≤{rows} rows (q0 has a row) × {len(words)} inputs, each as DTM, NTM and "
                        f"1-tape MNTM, 8 next() calls; verdict triple with budget 14")
+    # 1b. bounded-exhaustive tiny nondeterministic tables (dead-end state q1, two-way branching)
+    cnt = 0
+    for table in E.tiny_nondet_tables("0#"):
+        cnt += 1
+        if not thorough and cnt % 3 != ctx.seed % 3:
+            continue
+        nt = E.ntm_from_lists(kw2, table)
+        mt = E.mntm1_from_lists(kw2, table, swap=bool(cnt & 1))
+        for w in ("0", "00"):
+            check_ntm(ctx, nt, w, 6, "exhaustive_nondet")
+            check_mntm(ctx, mt, w, 10, "exhaustive_nondet")
+    ctx.exhaustive(("all" if thorough else "a third (by seed) of the") + f" {cnt} nondeterministic one-tape tables: q0 with two "
+                   "distinct results on '0' (+ optionally one of 3 rows on '#'), q1 a dead end or one of 2 rows; inputs "
+                   "'0','00'; as NTM (6 calls) and as MNTM (10 calls, both list orders)")
     # 2. shaped random
     budgets = [1, 2, 3, 6, 12, 25]
     for _ in range(ctx.budget(1200, 20000)):
